@@ -226,10 +226,35 @@ def summarize(stats_vecs):
     return s
 
 
+DESIGN = {
+    # (module, cfg, tiers, heap): exhaustive design models; a failure is the machinery's problem (exit 2), never a verdict on the code
+    "snap": [("MC_Snap", "MC_Snap_live.cfg", ("quick", "thorough"), "3g"), ("MC_Snap", "MC_Snap_tri.cfg", ("thorough",), "10g"),
+             ("MC_Snap", "MC_Snap_frame.cfg", ("thorough",), "10g")],
+    "rounding": [("MC_SnapRounding", "MC_SnapRounding.cfg", ("thorough",), "10g")],
+    "descent": [("Descent", "MC_Descent.cfg", ("quick", "thorough"), "6g")],
+    "levels": [("LevelArith", "MC_LevelArith.cfg", ("quick", "thorough"), "3g")],
+}
+
+
+def run_design(keys, tier):
+    done = []
+    for key in keys:
+        for module, cfg, tiers, heap in DESIGN[key]:
+            if tier not in tiers:
+                continue
+            r = vlib.run_tlc(module, cfg, timeout=7200, want_vecs=False, heap=heap, gc="parallel" if heap != "3g" else "serial")
+            if not r.ok:
+                raise Broken("design model %s/%s fails: %s\n%s" % (module, cfg, r.violated or r.error, r.trace_text[:3000]))
+            done.append({"model": cfg, "states": r.distinct, "transitions": r.generated, "wall_s": round(r.wall, 1)})
+    return done
+
+
 def run_snap_property(prop, tier, cfg, plans, rule, classify=None, second_process=False, min_valid_frac=0.0,
-                      extra_cov=None, assumptions=None, extra_lines=None, post=None, real_plans=None, real_cfg=None, require_repro=True):
+                      extra_cov=None, assumptions=None, extra_lines=None, post=None, real_plans=None, real_cfg=None, require_repro=True,
+                      design=("snap",)):
     t0 = time.time()
     v = vlib.Verdict(prop)
+    design_done = run_design(design, tier)
     drv = vlib.build_harness()
     d = vlib.scratch(prop.lower() + "gen")
     try:
@@ -277,6 +302,9 @@ def run_snap_property(prop, tier, cfg, plans, rule, classify=None, second_proces
         cov["real_grid_sets"] = sets
         if rlines:
             cov["samples"].append(json.loads(rlines[0]))
+    cov["design_models"] = design_done
+    cov["states"] += sum(d["states"] for d in design_done)
+    cov["transitions"] += sum(d["transitions"] for d in design_done)
     if extra_cov:
         cov.update(extra_cov)
     if post:
